@@ -40,6 +40,8 @@ CONSTANTS
   MDynAlways,     \* TRUE: a solution without a file writes its per-step dynamics whether or not there are probe points
   MTransformRebuilds,  \* TRUE: a transformation of a meshed object leaves a mesh whose every derived array belongs to the
                        \* transformed triangulation (FALSE, mutant: the Voronoi polygons keep their old position)
+  MBrowseResetsViews, \* TRUE: setting solve_step also renews what the Solution derives lazily from the step it holds (sheet current
+                      \* densities, vorticity); FALSE (mutant): a view computed for an earlier step survives the move
   MBrowseRereads, \* TRUE: setting solve_step on a loaded Solution reads every array of that step from the file (FALSE, mutant:
                   \* the disorder parameter of the step loaded first is kept)
   MMemoByPath     \* TRUE (mutant): the reader memoises what it loaded by path and serves it again (FALSE: cache-free reader)
@@ -231,12 +233,20 @@ Load == /\ pc = "saved"
 \* browsing the steps of ONE loaded Solution: solve_step = 0 is the first recorded step, k > 0 the step k, k < 0 counts from
 \* the last one.  The object then shows the data the FILE holds for that step.
 BrowseIdx(k) == LET n == Len(file.frames) IN IF k < 0 THEN n + k + 1 ELSE k + 1
-Browse(k) == /\ pc = "loaded" /\ kind = "solution"
+\* views: what the object derives from the step it holds (sheet current densities, vorticity - computed lazily and cached on
+\* the object); views[i] is what a cache-free reader derives from recorded step i (symbolic in the model-checking runs)
+SymViews == [i \in 1..Len(file.frames) |-> 5000 + file.frames[i]]
+BrowseV(k, views) ==
+             /\ pc = "loaded" /\ kind = "solution"
              /\ LET n == Len(file.frames) IN k \in (-n)..(IF NoFile(shape) THEN 0 ELSE n - 1)
+             /\ Len(views) = Len(file.frames)
              /\ cursor' = [k |-> k, idx |-> BrowseIdx(k),
                            frame |-> IF MBrowseRereads \/ shape.dyn \notin {"eps", "both"} \/ cursor = Nothing THEN file.frames[BrowseIdx(k)]
-                                     ELSE 0]     \* (mutant: the step's data with the disorder parameter of another step - no recorded step)
+                                     ELSE 0,     \* (mutant: the step's data with the disorder parameter of another step - no recorded step)
+                           view |-> IF MBrowseResetsViews \/ cursor = Nothing THEN views[BrowseIdx(k)] ELSE cursor.view,
+                           expview |-> views[BrowseIdx(k)]]
              /\ UNCHANGED <<kind, shape, saved, file, loaded, pc, memo, recomp, gen>>
+Browse(k) == BrowseV(k, SymViews)
 Remove == /\ pc = "loaded" /\ gen = 1 /\ kind # "options"
           /\ file' = Nothing /\ gen' = 2 /\ pc' = "removed" /\ cursor' = Nothing
           /\ UNCHANGED <<kind, shape, saved, loaded, memo, recomp>>
@@ -276,6 +286,8 @@ MeshRestoredEqualsRecomputed ==
 
 \* every step shown while browsing one Solution is the step the file holds (forwards, backwards, negative indices)
 BrowsedStepIsRecordedStep == cursor # Nothing => cursor.frame = file.frames[cursor.idx]
+\* ... and everything the object derives from the step it holds belongs to THAT step (no view of an earlier step survives)
+BrowsedViewsBelongToStep == cursor # Nothing => cursor.view = cursor.expview
 
 \* export of the enumerated records / shapes (materialised by the binding with the real classes)
 Emit == (pc = "made" /\ gen = 1) => PrintT(ToJson([kind |-> kind, shape |-> shape]))
